@@ -146,6 +146,9 @@ ALIAS_CALLEES = {
     "std::slice::<impl [T]>::iter": 0,
     "core::slice::<impl [T]>::iter": 0,
     "std::vec::Vec::<T>::into_boxed_slice": 0,
+    "std::slice::<impl [T]>::into_vec": 0,
+    "core::slice::<impl [T]>::into_vec": 0,
+    "alloc::slice::<impl [T]>::into_vec": 0,
     "std::iter::Iterator::collect": 0,
     "std::iter::Iterator::map": 0,   # the mapped collection still derives from its input
 }
@@ -520,6 +523,8 @@ class Body:
         if d == "std::iter::Iterator::map" and len(args) == 2 and args[1][0] == "agg" and args[1][1] == "closure" \
                 and args[0][0] == "call" and self.chain_elem(args[0], site) is not None:
             return ("call", site, d, args)     # a projection inside a lazy chain over a slice: chain_elem applies the closure
+        if d == "std::iter::Iterator::map" and len(args) == 2 and args[0][0] == "agg" and args[0][2].startswith("Range::"):
+            return ("call", site, d, args)     # `(0..n).map(|_| Cell::new()).collect()`: an allocation of n cells at this site, not a view of the range
         if d in ALIAS_CALLEES and len(args) > ALIAS_CALLEES[d]:
             return args[ALIAS_CALLEES[d]]
         if d == "std::clone::Clone::clone":
